@@ -235,7 +235,7 @@ static char *make_string(unsigned n)
 			VASSUME(IN.bytes[i] != 0);
 			VBIND(b[i], (char)IN.bytes[i]);
 		}
-	VBIND(b[n], 0);
+	b[n] = 0;
 	return b;
 }
 
